@@ -37,6 +37,7 @@ static const char *cur_id = "-";
 static int in_case, check_leaks, use_long;
 static char *cmn_init_repr;
 static char first_err[200];
+static const char *err_kind;   /* phrase of the first error message, looked up in the whole message (svspec) */
 static char fatal_file[64];
 
 static const config_param_t defs[] = { CONFIG_OPTIONS, CONFIG_EMPTY_OPTION };
@@ -70,8 +71,14 @@ static void err_cb(void *u, err_lvl_t lvl, const char *msg)
         fatal_file[o] = 0;
     }
     if (lvl >= ERR_ERROR && !first_err[0]) {
+        static const char *const phrases[] = { "Couldn't read int", "Bad subrange spec", "Duplicate dimension", "Bad delimiter",
+            "require single-stream", "is outside the feature", "Total dimensionality", NULL };
         const char *p = strstr(msg, ": ");
         size_t o = 0;
+        int q;
+        err_kind = NULL;
+        for (q = 0; phrases[q] && !err_kind; q++)
+            if (strstr(msg, phrases[q])) err_kind = phrases[q];
         /* skip "ERROR: "file.c", line N: " */
         p = strstr(msg, "line ");
         if (p) p = strstr(p, ": ");
@@ -479,11 +486,35 @@ static void summarize_fsg(const char *tag, const char *rname, fsg_model_t *f)
 
 #define MAX_RULES_BUILT 12
 
-static void case_jsgf(unsigned char *b, size_t n)
+/* large-count grammars (flag "big": tens of thousands of rules): parse, touch every rule name up to its
+ * terminator, build nothing (the builds and the closure are quadratic and worse in the number of rules), free */
+static void case_jsgf_big(const char *s)
+{
+    jsgf_t *j = jsgf_parse_string(s, NULL);
+    if (j == NULL) printf("%s rej\n", cur_id);
+    else {
+        jsgf_rule_iter_t *it;
+        long nr = 0, npub = 0, maxlen = 0, total = 0;
+        for (it = jsgf_rule_iter(j); it; it = jsgf_rule_iter_next(it)) {
+            jsgf_rule_t *r = jsgf_rule_iter_rule(it);
+            long l = (long)strlen(jsgf_rule_name(r));
+            nr++; total += l;
+            if (l > maxlen) maxlen = l;
+            if (jsgf_rule_public(r)) npub++;
+        }
+        printf("%s ok rules=%ld public=%ld\n", cur_id, nr, npub);
+        printf("%s names maxlen=%ld total=%ld\n", cur_id, maxlen, total);
+        jsgf_grammar_free(j);
+    }
+}
+
+static void case_jsgf(unsigned char *b, size_t n, const char *flag)
 {
     char *s = cstr(b, n);
-    jsgf_t *j = jsgf_parse_string(s, NULL);
+    jsgf_t *j;
     float32 lw = (float32)config_float(D->config, "lw");
+    if (flag && !strcmp(flag, "big")) { case_jsgf_big(s); free(s); return; }
+    j = jsgf_parse_string(s, NULL);
     if (j == NULL) printf("%s rej\n", cur_id);
     else {
         jsgf_rule_iter_t *it;
@@ -549,6 +580,68 @@ static void case_jsgf(unsigned char *b, size_t n)
     free(s);
 }
 
+/* ---- svspec: parse_subvecs on the bytes, then feat_set_subvecs on a default (single-stream) feature and the
+ * projection of one frame; the un-projected frame comes from a second feature object without sub-vectors ---- */
+#define SV_NFR 12
+#define SV_FRAME 5
+static void sv_fill(mfcc_t **mfc)
+{
+    int i, k;
+    for (i = 0; i < SV_NFR; ++i)
+        for (k = 0; k < 13; ++k)
+            mfc[i][k] = (mfcc_t)((i * i * 7 + k * k * 3 + i * k + 1) % 97);   /* integers: deltas stay exact */
+}
+
+static void case_svspec(unsigned char *b, size_t n)
+{
+    char *s = cstr(b, n);
+    int32 **sv = parse_subvecs(s);
+    if (sv == NULL) printf("%s rej\n", cur_id);
+    else {
+        int32 **v;
+        config_t *c = config_init(NULL);
+        feat_t *plain, *fcb;
+        int rc;
+        printf("%s ok", cur_id);
+        for (v = sv; *v; ++v) {
+            int32 *d;
+            printf(" ");
+            for (d = *v; *d != -1; ++d) printf("%s%d", d == *v ? "" : ",", *d);
+        }
+        printf("\n");
+        config_set_str(c, "cmn", "none");
+        config_set_str(c, "logfn", NULL);
+        plain = feat_init(c);
+        fcb = feat_init(c);
+        if (plain == NULL || fcb == NULL) { printf("%s harness-error feat_init\n", cur_id); fflush(stdout); _exit(3); }
+        printf("%s feat %d %u\n", cur_id, (int)fcb->n_stream, (unsigned)feat_dimension(fcb));
+        rc = feat_set_subvecs(fcb, sv);
+        if (rc < 0) { printf("%s set %d\n", cur_id, rc); subvecs_free(sv); }
+        else {
+            mfcc_t **mfc = (mfcc_t **)ckd_calloc_2d(SV_NFR, 13, sizeof(mfcc_t));
+            mfcc_t ***f0 = feat_array_alloc(plain, SV_NFR), ***f1 = feat_array_alloc(fcb, SV_NFR);
+            int32 nfr, k, n0, n1;
+            printf("%s set %d %d %d\n", cur_id, rc, (int)fcb->n_sv, (int)fcb->sv_dim);
+            sv_fill(mfc); nfr = SV_NFR;
+            n0 = feat_s2mfc2feat_live(plain, mfc, &nfr, 1, 1, f0);
+            sv_fill(mfc); nfr = SV_NFR;
+            n1 = feat_s2mfc2feat_live(fcb, mfc, &nfr, 1, 1, f1);
+            printf("%s nfr %d %d\n", cur_id, n0, n1);
+            if (n0 > SV_FRAME && n1 > SV_FRAME) {
+                printf("%s frame", cur_id);
+                for (k = 0; k < (int32)feat_dimension(plain); ++k) printf(" %d", (int)f0[SV_FRAME][0][k]);
+                printf("\n%s proj", cur_id);
+                for (k = 0; k < fcb->sv_dim; ++k) printf(" %d", (int)f1[SV_FRAME][0][k]);
+                printf("\n");
+            }
+            feat_array_free(f0); feat_array_free(f1); ckd_free_2d(mfc);
+        }
+        feat_free(plain); feat_free(fcb);   /* fcb owns sv when it accepted it */
+        config_free(c);
+    }
+    free(s);
+}
+
 int main(int argc, char **argv)
 {
     static char line[1 << 24];
@@ -604,11 +697,11 @@ int main(int argc, char **argv)
         if (strcmp(w[3], ".")) { b2 = vf_parse_hex(w[3], &l2); have2 = 1; }
         if (strcmp(w[4], ".")) flag = w[4];
         use_long = flag && !strcmp(flag, "long");
-        first_err[0] = 0; fatal_file[0] = 0;
+        first_err[0] = 0; fatal_file[0] = 0; err_kind = NULL;
         printf("%s BEGIN %s\n", cur_id, w[1]);
         fflush(stdout);
         in_case = 1;
-        alarm(20);
+        alarm(flag && !strcmp(flag, "big") ? 90 : 20);   /* large-count cases are linear to quadratic in counts of 10^5 */
         decoder_set_cmn(D, cmn_init_repr);   /* every case starts from the same live means */
         first_err[0] = 0;
         if (!strcmp(w[1], "fsg")) case_fsg(b1, l1);
@@ -618,11 +711,18 @@ int main(int argc, char **argv)
         else if (!strcmp(w[1], "align")) case_align(b1, l1);
         else if (!strcmp(w[1], "addword")) case_addword(b1, l1, b2 ? b2 : (unsigned char *)"", l2, flag);
         else if (!strcmp(w[1], "cmn")) case_cmn(b1, l1);
-        else if (!strcmp(w[1], "jsgf")) case_jsgf(b1, l1);
+        else if (!strcmp(w[1], "jsgf")) case_jsgf(b1, l1, flag);
+        else if (!strcmp(w[1], "svspec")) case_svspec(b1, l1);
         else printf("%s bad-kind\n", cur_id);
         alarm(0);
         free(b1); free(b2);
         if (first_err[0]) printf("%s err %s\n", cur_id, first_err);
+        if (first_err[0] && err_kind) {
+            const char *q;
+            printf("%s errkind ", cur_id);
+            for (q = err_kind; *q; q++) putchar(*q == ' ' ? '_' : *q);
+            printf("\n");
+        }
         if (check_leaks && __lsan_do_recoverable_leak_check()) {
             printf("%s LEAK\n", cur_id);
             fflush(stdout);
